@@ -225,6 +225,7 @@ def check(ctx: Ctx):
     # the fit region is the candidate's own boolean image: the sharp branch of every renderer must use the class' own interface
     from ..rules import render, support
 
+    support.check_fixed_levels(ctx)
     for cname in ("DiffuseDroplet", "PerturbedDropletBase"):
         support.compose(ctx, render.check_renderer, cname, rules=("SHARP", "WIDTH", "CAST"), keep=("SHARP", "WIDTH", "CAST"))
     ctx.expect("SHARP", 2)
